@@ -59,7 +59,7 @@ def grid_ops():
 
 def cfgs():
     out = []
-    for prefix in (b"", b"p:"):
+    for prefix in (b"", b"p:", "s:"):            # the last one given as str: every class encodes it
         for dn in (False, True):
             for enc in (0, 1):
                 for uni in (False, True):
